@@ -5,7 +5,10 @@ META = {
     'text': 'Lean 4 theorems: Forest (parents exist, a rank decreases towards parents) and Roots (local root equations) are '
             'invariants of create / update (first-time parenting, re-parenting, un-parenting of subtrees) / delete in the '
             'model for all states, root = top of the parent chain; tied to the code by differential histories; a graph-walk '
-            'monitor checks the real table after every request and the documented rejections.',
+            'monitor checks the real table after every request and the documented rejections; beyond sequences: '
+            'forest_roots_every_schedule (any pool of requests, any interleaving of their transactions, PUT/DELETE of a provider '
+            'modelled as look-up + write transaction) and every interleaving of pairs of tree-changing requests on the real '
+            'application compared with Prog.runSched.',
     'level_note': 'trusted: Lean kernel; correspondence sampled.',
     'technique': 'Lean 4 proof (rank-function invariant, induction over requests) + model/implementation correspondence',
     'design_ref': 'DESIGN.md section 5, C09',
